@@ -377,3 +377,10 @@ Theorem C01_outcome_schedule_dependent_refuted_without_mt_consistency :
     has g (dst st1) n <> has g (dst st2) n.
 Proof. exact outcome_schedule_dependent_without_mt_consistency. Qed.
 Print Assumptions C01_outcome_schedule_dependent_refuted_without_mt_consistency.
+
+Theorem C01_code_blank_reference_and_proxy :
+  copy_blank_dstref_rule = ["dstRef == ''"%string; "dstRef = srcRef"%string] /\
+  calls_proxyFetch = [b "p.FetchCached"; b "p.Cache.Fetch"; b "p.ReadOnlyStorage.Fetch"; b "p.Cache.Push"] /\
+  calls_proxyFetchCached = [b "p.Cache.Exists"; b "p.Cache.Fetch"; b "p.ReadOnlyStorage.Fetch"].
+Proof. exact (conj rule_blank_dstref order_proxy). Qed.
+Print Assumptions C01_code_blank_reference_and_proxy.
